@@ -46,12 +46,17 @@ FrontEndV(target, a, variant) ==
       p  == IF target = "trait" THEN TraitSemantic(p0) ELSE p0 IN
   [p EXCEPT !.opts = IF p.err = "" THEN ApplyFallbacks(p.opts, variant) ELSE p.opts]
 
-Gate(o) == IF ExportValue(o) THEN "" ELSE "?"
+\* attributes of emitted items: [kind, gated (behind cfg_attr(test, ..)), detail]
+A(kind, gated, detail) == [kind |-> kind, gated |-> gated, detail |-> detail]
+Plain(kind) == A(kind, FALSE, "")
+AText(a) == a.kind \o (IF a.gated THEN "?" ELSE "") \o a.detail
+Gate(o) == ~ExportValue(o)
 OwnedKinds == {"async_trait", "automock", "mockall", "unimock", "entrait"}
 HasAsyncTrait(sub) == \E i \in DOMAIN sub : sub[i] = "async_trait"
 \* what gen_trait_def re-applies from the attributes below entrait (fn / mod / generated target traits)
-ReusedOnTrait(sub) == SelectSeq(sub, LAMBDA k : k \in {"async_trait", "automock", "mockall"})
-ReusedOnImpl(sub)  == SelectSeq(sub, LAMBDA k : k = "async_trait")
+Plains(ks) == [i \in DOMAIN ks |-> Plain(ks[i])]
+ReusedOnTrait(sub) == Plains(SelectSeq(sub, LAMBDA k : k \in {"async_trait", "automock", "mockall"}))
+ReusedOnImpl(sub)  == Plains(SelectSeq(sub, LAMBDA k : k = "async_trait"))
 
 \* ---- method lines
 AsyncForm(isasync, sub, o) ==
@@ -88,9 +93,9 @@ Text(t) == [k |-> "text", text |-> t]
 Indent(it) == IF it.k = "text" THEN [it EXCEPT !.text = "  " \o @] ELSE [it EXCEPT !.ind = "  "]
 LineOf(it) ==
   CASE it.k = "text"  -> it.text
-    [] it.k = "trait" -> it.ind \o "trait " \o it.vis \o " " \o it.name \o " [" \o Join(it.attrs, ",") \o "] <" \o Num(it.ngen) \o "> :" \o Join(it.supers, "+")
+    [] it.k = "trait" -> it.ind \o "trait " \o it.vis \o " " \o it.name \o " [" \o Join([i \in DOMAIN it.attrs |-> AText(it.attrs[i])], ",") \o "] <" \o Num(it.ngen) \o "> :" \o Join(it.supers, "+")
                          \o " { " \o Join([i \in DOMAIN it.methods |-> MText(it.methods[i])], " ; ") \o " }"
-    [] it.k = "impl"  -> it.ind \o "impl " \o it.trait \o "<" \o Num(it.nargs) \o "> for " \o it.self \o " [" \o Join(it.attrs, ",") \o "] app:" \o Join(it.app, "+")
+    [] it.k = "impl"  -> it.ind \o "impl " \o it.trait \o "<" \o Num(it.nargs) \o "> for " \o it.self \o " [" \o Join([i \in DOMAIN it.attrs |-> AText(it.attrs[i])], ",") \o "] app:" \o Join(it.app, "+")
                          \o " self:" \o Num(it.nself) \o " { " \o Join([i \in DOMAIN it.methods |-> MText(it.methods[i])], " ; ") \o " }"
 Render(items) == [i \in DOMAIN items |-> LineOf(items[i])]
 SyncB == "::core::marker::Sync"
@@ -101,8 +106,8 @@ PubFns(in) == IF in.target = "mod" THEN SelectSeq(in.fns, LAMBDA f : f.vis # "")
 \* generics lifted to the trait: all type / const parameters, minus the named dependency parameter
 Lifted(f, d) == IF d.kind = "generic" /\ d.named THEN f.ngen - 1 ELSE f.ngen
 UnimockTok(o, target, nfns) ==
-  "unimock" \o Gate(o) \o "(" \o (IF o.mock_api # "absent" THEN (IF target = "fn" THEN "api[]" ELSE "api") ELSE "")
-  \o (IF target # "trait" /\ nfns > 0 THEN "+unmock" ELSE "") \o ")"
+  A("unimock", Gate(o), "(" \o (IF o.mock_api # "absent" THEN (IF target = "fn" THEN "api[]" ELSE "api") ELSE "")
+                        \o (IF target # "trait" /\ nfns > 0 THEN "+unmock" ELSE "") \o ")")
 FnModItems(in, o) ==
   LET fs == PubFns(in)
       nd == NoDepsValue(o)
@@ -113,8 +118,8 @@ FnModItems(in, o) ==
       ngen == SumSeq([i \in DOMAIN fs |-> Lifted(fs[i], an.deps[i])], 1)
       withcfg == in.target = "mod"
       tattrs == (IF UnimockAttr(in.target, o) THEN << UnimockTok(o, in.target, Len(fs)) >> ELSE << >>)
-                \o (IF conc THEN << "entrait(unimock=false,mockall=false)" >> ELSE << >>)
-                \o (IF MockallAttr(o) THEN << "mockall" \o Gate(o) >> ELSE << >>)
+                \o (IF conc THEN << A("entrait", FALSE, "(unimock=false,mockall=false)") >> ELSE << >>)
+                \o (IF MockallAttr(o) THEN << A("mockall", Gate(o), "") >> ELSE << >>)
                 \o ReusedOnTrait(in.sub)
       tvis == IF in.target = "mod" /\ in.tvis = "" THEN "pub(super)" ELSE in.tvis
       tline == TraitLine(tvis, in.tname, tattrs, ngen, << >>, [i \in DOMAIN fs |-> TraitMethodOfFn(fs[i], nd, "self", in.sub, o, withcfg)])
@@ -151,14 +156,15 @@ TraitItems(in, p) ==
       \* (Opts keeps the lead as written, `pub TImpl`; the identifier alone is in.tname)
       implt == IF p.impltrait = "" THEN "" ELSE IF in.tname # "" THEN in.tname ELSE p.impltrait
       anyasync == \E i \in DOMAIN tr.methods : tr.methods[i].async
-      owned == SelectSeq(in.sub, LAMBDA k : k \in OwnedKinds)
+      owned == Plains(SelectSeq(in.sub, LAMBDA k : k \in OwnedKinds))
       tattrs == (IF UnimockAttr("trait", o) THEN << UnimockTok(o, "trait", Len(tr.methods)) >> ELSE << >>)
-                \o (IF MockallAttr(o) THEN << "mockall" \o Gate(o) >> ELSE << >>) \o owned
+                \o (IF MockallAttr(o) THEN << A("mockall", Gate(o), "") >> ELSE << >>) \o owned
       t1 == TraitLine(tr.vis, tr.name, tattrs, tr.ngen, tr.supers, [i \in DOMAIN tr.methods |-> TraitMethod(tr.methods[i], in.sub, o, "orig")])
-      asub == ReusedOnImpl(in.sub)
+      asubk == SelectSeq(in.sub, LAMBDA k : k = "async_trait")
+      asub == Plains(asubk)
       \* the generated delegation-target trait: async_trait is written once by the caller and once by gen_trait_def
       rk == IF e.delegate = "custom" THEN "static" ELSE "dyn"
-      t2 == TraitLine(tr.vis, implt, asub \o asub, tr.ngen + 1, << "'static" >>, [i \in DOMAIN tr.methods |-> TraitMethod(tr.methods[i], asub, o, rk)])
+      t2 == TraitLine(tr.vis, implt, asub \o asub, tr.ngen + 1, << "'static" >>, [i \in DOMAIN tr.methods |-> TraitMethod(tr.methods[i], asubk, o, rk)])
       t3 == TraitLine("pub", p.delegname, << >>, 1, << >>, << >>)
       trargs == tr.name \o tr.gargs
       app == << SyncB, "'static" >> \o
